@@ -18,7 +18,7 @@ external c_fileset_reload : nativeint -> unit = "vp_fileset_reload"
 external c_fileset_reload_now : nativeint -> unit = "vp_fileset_reload_now"
 
 let engine = "fs"
-let rule = "histories (length 4..30) over: rewrite the setfile (add/remove/replace names, relative and absolute lines, lines naming missing files and files that are not tables), create/delete table files, advance the clock (whole seconds + random nanoseconds, around the reload interval), mtbl_fileset_reload, mtbl_fileset_reload_now, open an iterator on a handle (iter, get of a present / absent key, get_prefix, get_range, iter or range followed by a seek), close an iterator (it is drained at that moment: pinned snapshot), dup a handle with other filename/reader filters and interval in {0, n, NEVER}, destroy handles. Observed: the set of tables every iterator returns. Non-trivial: history contains a setfile change followed by an open; distinct by history."
+let rule = "histories (length 4..30) over: rewrite the setfile (add/remove/replace names, relative and absolute lines, lines naming missing files and files that are not tables), create/delete table files, advance the clock (whole seconds + random nanoseconds, around the reload interval), mtbl_fileset_reload, mtbl_fileset_reload_now, open an iterator on a handle (iter, get of a present / absent key, get_prefix, get_range, iter or range followed by a seek), close an iterator (it is drained at that moment: pinned snapshot), dup a handle with other filename/reader filters and interval in {0, n, NEVER}, destroy handles. Observed: the set of tables every iterator returns (from the merged value of a key all tables hold) and the complete key sequence it returns, compared with the merge of the tables of the model view within the range / after the seek target (tables hold keys of their own that interleave; seek targets where every file has a different head key). Non-trivial: history contains a setfile change followed by an open; distinct by history."
 
 type xop =
   | XSetFile of int list | XCreate of int * int (* name, table id; id < 0: not a table *) | XDelete of int
@@ -29,7 +29,7 @@ let xop_json = function
   | XSetFile l -> JL (JS "setfile" :: List.map (fun n -> JI n) l)
   | XCreate (n, t) -> JL [ JS "create"; JI n; JI t ] | XDelete n -> JL [ JS "delete"; JI n ]
   | XAdvance (s, ns) -> JL [ JS "advance"; JI s; JI ns ] | XReload h -> JL [ JS "reload"; JI h ] | XReloadNow h -> JL [ JS "reload_now"; JI h ]
-  | XOpen (h, k) -> JL [ JS "open"; JI h; JS (match k with 0 -> "iter" | 1 -> "get(x)" | 2 -> "get(absent)" | 3 -> "get_prefix(x)" | 4 -> "get_range(x,x)" | 5 -> "iter;seek(x)" | 6 -> "get_prefix()" | _ -> "get_range(a,z);seek(x)") ]
+  | XOpen (h, k) -> JL [ JS "open"; JI h; JS (match k with 0 -> "iter" | 1 -> "get(x)" | 2 -> "get(absent)" | 3 -> "get_prefix(x)" | 4 -> "get_range(x,x)" | 5 -> "iter;seek(x)" | 6 -> "get_prefix()" | 7 -> "get_range(a,z);seek(x)" | 8 -> "iter;seek(m1)" | 9 -> "get_range(a,z);seek(m2)" | _ -> "get_prefix(m);seek(m1)") ]
   | XClose i -> JL [ JS "close"; JI i ]
   | XDup (h, iv, nf, rf) -> JL [ JS "dup"; JI h; JI iv; JI nf; JI rf ] | XDestroy h -> JL [ JS "destroy"; JI h ]
 
@@ -55,14 +55,30 @@ let to_model (ops : xop list) : fop list =
     | XDup (h, iv, nf, rf) -> OpDup (nat_of_int h, n_of_int iv, filt nf, filt rf)
     | XDestroy h -> OpDestroy (nat_of_int h)) ops
 
-(* write table id t at path: ("x", "T<t>") plus fillers so that count_entries = 3 + t *)
+(* the entries of table id t: ("x", "T<t>"), fillers "f000".. shared by the tables (merged values) so that
+   count_entries = 8 + t, and keys of its own that interleave with those of the other tables ("m<j>t<t>", "y<t>"):
+   the merged sequence of a view depends on every file and on the order the merger's heap keeps *)
+let table_keys t =
+  List.init (t + 2) (fun i -> Printf.sprintf "f%03d" i) @ List.init 4 (fun j -> Printf.sprintf "m%dt%d" j t) @ [ "x"; Printf.sprintf "y%d" t ]
 let write_table path t =
   (try Sys.remove path with _ -> ());
   let fd = Wr.c_open_rw path true in
   let w = Wr.c_writer_init_fd fd (0, false, 0, false, 0, false, 0, 0n) in
-  for i = 0 to t + 1 do ignore (Wr.c_writer_add w (Printf.sprintf "f%03d" i) "") done;
-  ignore (Wr.c_writer_add w "x" (Printf.sprintf "T%d" t));
+  List.iter (fun k -> ignore (Wr.c_writer_add w k (if k = "x" then Printf.sprintf "T%d" t else ""))) (table_keys t);
   Wr.c_writer_destroy w; Wr.c_close fd
+
+(* the keys an iterator of kind [kind] must return over the tables [view] (table ids) *)
+let expected_keys kind (view : int list) : string list =
+  let all = List.sort_uniq compare (List.concat_map table_keys view) in
+  let has_prefix p k = String.length k >= String.length p && String.sub k 0 (String.length p) = p in
+  match kind with
+  | 0 | 6 -> all
+  | 1 | 3 | 4 -> List.filter (fun k -> k = "x") all
+  | 2 -> []
+  | 5 | 7 -> List.filter (fun k -> k >= "x" && k <= "z") all
+  | 8 -> List.filter (fun k -> k >= "m1") all
+  | 9 -> List.filter (fun k -> k >= "m2" && k <= "z") all
+  | _ -> List.filter (fun k -> has_prefix "m" k && k >= "m1") all
 
 let run_impl dir ~interval ~nf ~rf (ops : xop list) : child_end =
   in_child (fun () ->
@@ -81,17 +97,18 @@ let run_impl dir ~interval ~nf ~rf (ops : xop list) : child_end =
     let mc = Mg.c_merge_clos_new 1 0 in
     let handles = ref [| c_fileset_init setfile interval mc nf rf |] in
     let iters = ref [||] in
-    let outs = ref [] in
+    let outs = ref [] and keyouts = ref [] in
     let drain it =
-      let tables = ref [] in
+      let tables = ref [] and keys = ref [] in
       if it <> 0n then begin
         let continue = ref true in
         while !continue do
           match Rd.c_iter_next it with
-          | Some (k, v) -> if k = "x" then tables := List.map (fun a -> int_of_string (String.sub a 1 (String.length a - 1))) (String.split_on_char '|' v)
+          | Some (k, v) -> keys := k :: !keys;
+            if k = "x" then tables := List.map (fun a -> int_of_string (String.sub a 1 (String.length a - 1))) (String.split_on_char '|' v)
           | None -> continue := false
         done
-      end; List.sort compare !tables in
+      end; (List.sort compare !tables, List.rev !keys) in
     List.iteri (fun step op ->
       (match op with
        | XSetFile l -> write_setfile l ~absolute:(step mod 2 = 0)
@@ -111,17 +128,22 @@ let run_impl dir ~interval ~nf ~rf (ops : xop list) : child_end =
              | 3 -> Rd.c_source_get_prefix src "x" | 4 -> Rd.c_source_get_range src "x" "x"
              | 5 -> let it = Rd.c_source_iter src in if it <> 0n then ignore (Rd.c_iter_seek it "x"); it
              | 6 -> Rd.c_source_get_prefix src ""
-             | _ -> let it = Rd.c_source_get_range src "a" "z" in if it <> 0n then ignore (Rd.c_iter_seek it "x"); it) in
+             | 7 -> let it = Rd.c_source_get_range src "a" "z" in if it <> 0n then ignore (Rd.c_iter_seek it "x"); it
+             (* seeks to keys that differ from file to file: the merger rebuilds its heap over distinct head keys *)
+             | 8 -> let it = Rd.c_source_iter src in if it <> 0n then ignore (Rd.c_iter_seek it "m1"); it
+             | 9 -> let it = Rd.c_source_get_range src "a" "z" in if it <> 0n then ignore (Rd.c_iter_seek it "m2"); it
+             | _ -> let it = Rd.c_source_get_prefix src "m" in if it <> 0n then ignore (Rd.c_iter_seek it "m1"); it) in
          iters := Array.append !iters [| (it, kind, step) |]
        | XClose i ->
          let (it, kind, ostep) = !iters.(i) in
-         let v = drain it in
-         if kind <> 2 then outs := (ostep, v) :: !outs;
+         let (v, keys) = drain it in
+         if kind <> 2 && kind <> 10 then outs := (ostep, v) :: !outs;    (* kinds whose range holds the key "x" *)
+         keyouts := (ostep, kind, keys) :: !keyouts;
          if it <> 0n then Rd.c_iter_destroy it;
          !iters.(i) <- (0n, kind, ostep)
        | XDup (h, iv, f1, f2) -> handles := Array.append !handles [| c_fileset_dup !handles.(h) iv mc f1 f2 |]
        | XDestroy h -> c_fileset_destroy !handles.(h); !handles.(h) <- 0n)) ops;
-    "DONE" ^ Marshal.to_string (List.rev !outs) [])
+    "DONE" ^ Marshal.to_string (List.rev !outs, List.rev !keyouts) [])
 
 (* history generator: well-formed usage *)
 let gen_history st : int * int * int * xop list =
@@ -145,7 +167,7 @@ let gen_history st : int * int * int * xop list =
      | 4 | 5 -> add (XAdvance ((match rint st 4 with 0 -> 0 | 1 -> 1 | 2 -> rrange st 1 6 | _ -> rrange st 0 2), rint st 999999999))
      | 6 -> add (XReload (h ()))
      | 7 -> add (XReloadNow (h ()))
-     | 8 | 9 | 10 -> add (XOpen (h (), (if rint st 2 = 0 then rint st 3 else rint st 8))); open_iters := !niters :: !open_iters; incr niters
+     | 8 | 9 | 10 -> add (XOpen (h (), (if rint st 2 = 0 then rint st 3 else rint st 11))); open_iters := !niters :: !open_iters; incr niters
      | 11 -> (match !open_iters with [] -> () | l -> let i = List.nth l (rint st (List.length l)) in add (XClose i); open_iters := List.filter (fun x -> x <> i) l)
      | 12 -> if !nh < 4 then begin
          add (XDup (h (), (match rint st 3 with 0 -> 0 | 1 -> rrange st 1 4 | _ -> 0xFFFFFFFF), rint st 3, (if rint st 4 = 0 then rrange st 1 2 else 0)));
@@ -179,15 +201,26 @@ let check acc ~klass (interval, nf, rf, ops) =
   ignore (Sys.command (Printf.sprintf "rm -rf %s && mkdir -p %s" (Filename.quote dir) (Filename.quote dir)));
   (match run_impl dir ~interval ~nf ~rf ops with
    | Exited (_, s) when String.length s > 4 && String.sub s 0 4 = "DONE" ->
-     let iouts : (int * int list) list = Marshal.from_string s 4 in
+     let (iouts, keyouts) : (int * int list) list * (int * int * string list) list = Marshal.from_string s 4 in
      let iouts = List.sort compare iouts in
-     let mv = List.sort compare (List.filter_map (fun (st, v) -> match v with `View l -> Some (st, l) | `UAF -> None) mviews) in
+     let no_x st = (match List.nth ops st with XOpen (_, 10) -> true | _ -> false) in
+     let mv = List.sort compare (List.filter_map (fun (st, v) -> match v with `View l when not (no_x st) -> Some (st, l) | _ -> None) mviews) in
      if iouts <> mv then begin
        let show l = String.concat "; " (List.map (fun (st, v) -> Printf.sprintf "@%d:[%s]" st (String.concat "," (List.map string_of_int v))) l) in
        fail acc ~kind:"model_mismatch" ~what:"[C07] tables seen by the iterators" (JO [ "case", Lazy.force case; "impl", JS (show iouts); "model", JS (show mv) ]);
        fail acc ~kind:"spec_violation" ~what:"[C07] an iterator's view is not the merge of the files named in the setfile as of the most recent reload (restricted by the handle's filters), or a reload happened / failed to happen at the wrong moment"
          (JO [ "case", Lazy.force case; "got", JS (show iouts); "expected", JS (show mv) ])
-     end
+     end else
+       (* the whole content: every iterator returns, in ascending order and once each, exactly the keys that the tables
+          of its view hold within the iterator's range and at or after its seek target *)
+       List.iter (fun (ostep, kind, keys) ->
+         match List.assoc_opt ostep mviews with
+         | Some (`View l) ->
+           let exp = expected_keys kind l in
+           if keys <> exp then
+             fail acc ~kind:"spec_violation" ~what:"[C07] an iterator on the fileset does not return the merge of the files of its view (keys missing, repeated or out of order)"
+               (JO [ "case", Lazy.force case; "iterator_opened_at_step", JI ostep; "got", JS (String.concat " " keys); "expected", JS (String.concat " " exp) ])
+         | _ -> ()) keyouts
    | Signaled (sg, _) ->
      fail acc ~kind:"spec_violation" ~what:(Printf.sprintf "[C07] the fileset stopped the process (signal %d): a handle used readers destroyed by a reload through another handle, or similar" sg) (Lazy.force case)
    | Exited (_, s) -> fail acc ~kind:"model_mismatch" ~what:"[C07] harness error" (JO [ "case", Lazy.force case; "msg", JS s ]));
@@ -226,6 +259,10 @@ let run ~tier ~seed ~only acc =
     (0, 0, 0, [ XCreate (1, 1); XCreate (2, 2); XSetFile [ 1; 2 ]; XDup (0, 0, 0, 0); XOpen (0, 3); XOpen (1, 4); XOpen (0, 5); XOpen (1, 6); XOpen (0, 7);
                 XCreate (3, 3); XSetFile [ 2; 3 ]; XAdvance (2, 0); XReloadNow 1; XOpen (1, 3); XClose 0; XClose 1; XClose 2; XClose 3; XClose 4; XClose 5;
                 XOpen (0, 4); XOpen (1, 7); XClose 6; XClose 7; XDestroy 0; XDestroy 1 ]);
+    (* seeks over 2, 4 and 6 files whose head keys at the target all differ, the files named last holding the smallest *)
+    (0, 0, 0, [ XCreate (1, 5); XCreate (2, 3); XSetFile [ 1; 2 ]; XOpen (0, 8); XClose 0; XOpen (0, 9); XClose 1; XOpen (0, 10); XClose 2;
+                XCreate (3, 4); XCreate (4, 1); XSetFile [ 1; 2; 3; 4 ]; XAdvance (2, 0); XReloadNow 0; XOpen (0, 8); XClose 3; XOpen (0, 9); XClose 4; XOpen (0, 10); XClose 5;
+                XCreate (5, 2); XCreate (6, 0); XSetFile [ 1; 2; 3; 4; 5; 6 ]; XAdvance (2, 0); XReloadNow 0; XOpen (0, 8); XClose 6; XOpen (0, 0); XClose 7; XOpen (0, 5); XClose 8; XDestroy 0 ]);
   ] in
   List.iter (fun c -> if want () then check acc ~klass:"directed" c; incr idx) directed;
   let n = if tier = "thorough" then 4000 else 500 in
